@@ -114,34 +114,10 @@ def gen_generic(repo):
         raise Skip('_get_types: get_generic_base is not applied to self between the guard and the branch')
     if not (isinstance(g2.test, ast.UnaryOp) and isinstance(g2.test.op, ast.Not) and is_name(g2.test.operand, gbv)):
         raise Skip('_get_types: branch is not `if not generic_base:`')
-    # the loop
-    if len(g2.body) != 1 or not isinstance(g2.body[0], ast.For):
-        raise Skip('_get_types: then-branch is not a single for loop')
-    loop = g2.body[0]
-    if loop.orelse or not is_name(loop.target) or attr_chain(loop.iter) != ['self', f['nonGenericGuardAttr']] \
-            and attr_chain(loop.iter) != ['self', '__orig_bases__']:
-        raise Skip('_get_types: loop does not iterate `self.__orig_bases__` directly')
-    f['loopIterAttr'] = attr_chain(loop.iter)[1]
-    bv = loop.target.id
-    lb = body_of(loop)
-    if len(lb) not in (3, 4):
-        raise Skip('_get_types: loop body is not (skip-test, [origin-class test,] lookup, found-test)')
-    l1, l2, l3 = lb[0], lb[-2], lb[-1]
-    h = isinstance(l1, ast.If) and not_hasattr(l1.test)
-    if not (h and is_name(h[0], bv) and len(l1.body) == 1 and isinstance(l1.body[0], ast.Continue) and not l1.orelse):
-        raise Skip('_get_types: loop does not start with `if not hasattr(base, <attr>): continue`')
-    f['loopOriginAttr'] = h[1]
-    # optional second test: `if not ([isinstance(base.<origin>, type) and] issubclass(base.<origin>, <Class>)): continue`
-    f['loopOriginMustDeriveFrom'] = None
-    if len(lb) == 4:
-        l1b = lb[1]
-        ok = isinstance(l1b, ast.If) and not l1b.orelse and len(l1b.body) == 1 and isinstance(l1b.body[0], ast.Continue) \
-            and isinstance(l1b.test, ast.UnaryOp) and isinstance(l1b.test.op, ast.Not)
-        if not ok:
-            raise Skip('_get_types: second statement of the loop is not `if not (...): continue`')
-        inner = l1b.test.operand
-        conj = inner.values if isinstance(inner, ast.BoolOp) and isinstance(inner.op, ast.And) else [inner]
-        origin = [bv, f['loopOriginAttr']]
+    # the loop: either `for base in self.__orig_bases__` with `continue` tests at the top of its body, or two lists built by
+    # comprehensions (`subscripted_bases`, `mixin_bases`) and `for base in mixin_bases or subscripted_bases`
+    def origin_class_test(conj, origin):
+        """conjuncts `[isinstance(<origin>, type),] issubclass(<origin>, <Class>)` -> Class"""
         cls_name = None
         for k, cnd in enumerate(conj):
             if not (isinstance(cnd, ast.Call) and is_name(cnd.func) and len(cnd.args) == 2 and not cnd.keywords
@@ -155,7 +131,93 @@ def gen_generic(repo):
             raise Skip('_get_types: origin-class test has a conjunct outside the subset: ' + ast.unparse(cnd))
         if cls_name not in LIB_CLASS_IDS:
             raise Skip(f'_get_types: origin-class test names {cls_name}, not a class of the class-table model')
-        f['loopOriginMustDeriveFrom'] = cls_name
+        return cls_name
+
+    def conjuncts(e):
+        return e.values if isinstance(e, ast.BoolOp) and isinstance(e.op, ast.And) else [e]
+
+    def simple_comp(st):
+        """`x = [v for v in <iter> if <conds>]` -> (x, v, iter, [conds]) | None"""
+        if not (isinstance(st, ast.Assign) and len(st.targets) == 1 and is_name(st.targets[0]) and isinstance(st.value, ast.ListComp)):
+            return None
+        lc = st.value
+        if not (len(lc.generators) == 1 and is_name(lc.generators[0].target) and is_name(lc.elt, lc.generators[0].target.id)
+                and not lc.generators[0].is_async):
+            return None
+        conds = []
+        for t in lc.generators[0].ifs:
+            conds += conjuncts(t)
+        return st.targets[0].id, lc.elt.id, lc.generators[0].iter, conds
+
+    f['loopPrefersOriginsDerivedFrom'] = None      # the loop looks only at subscripted bases whose origin derives from this class …
+    f['loopFallsBackToAll'] = False                # … unless there is none (`mixin_bases or subscripted_bases`)
+    f['loopSkipsOriginsWithoutOrigBases'] = False  # `if not hasattr(base.<origin>, '__orig_bases__'): continue`
+    tb = g2.body
+    if len(tb) == 1 and isinstance(tb[0], ast.For):
+        loop = tb[0]
+        if loop.orelse or not is_name(loop.target) or attr_chain(loop.iter) != ['self', f['nonGenericGuardAttr']] \
+                and attr_chain(loop.iter) != ['self', '__orig_bases__']:
+            raise Skip('_get_types: loop does not iterate `self.__orig_bases__` directly')
+        f['loopIterAttr'] = attr_chain(loop.iter)[1]
+        bv = loop.target.id
+        lb = body_of(loop)
+        if len(lb) not in (3, 4):
+            raise Skip('_get_types: loop body is not (skip-test, [origin-class test,] lookup, found-test)')
+        l1, l2, l3 = lb[0], lb[-2], lb[-1]
+        h = isinstance(l1, ast.If) and not_hasattr(l1.test)
+        if not (h and is_name(h[0], bv) and len(l1.body) == 1 and isinstance(l1.body[0], ast.Continue) and not l1.orelse):
+            raise Skip('_get_types: loop does not start with `if not hasattr(base, <attr>): continue`')
+        f['loopOriginAttr'] = h[1]
+        # optional second test: `if not ([isinstance(base.<origin>, type) and] issubclass(base.<origin>, <Class>)): continue`
+        if len(lb) == 4:
+            l1b = lb[1]
+            ok = isinstance(l1b, ast.If) and not l1b.orelse and len(l1b.body) == 1 and isinstance(l1b.body[0], ast.Continue) \
+                and isinstance(l1b.test, ast.UnaryOp) and isinstance(l1b.test.op, ast.Not)
+            if not ok:
+                raise Skip('_get_types: second statement of the loop is not `if not (...): continue`')
+            f['loopPrefersOriginsDerivedFrom'] = origin_class_test(conjuncts(l1b.test.operand), [bv, f['loopOriginAttr']])
+    elif len(tb) == 3 and isinstance(tb[2], ast.For):
+        c1, c2, loop = simple_comp(tb[0]), simple_comp(tb[1]), tb[2]
+        if c1 is None or c2 is None:
+            raise Skip('_get_types: the two statements before the loop are not simple list comprehensions')
+        subsv, v1, it1, conds1 = c1
+        mixv, v2, it2, conds2 = c2
+        if attr_chain(it1) not in (['self', f['nonGenericGuardAttr']], ['self', '__orig_bases__']):
+            raise Skip('_get_types: first comprehension does not select from `self.__orig_bases__`')
+        f['loopIterAttr'] = attr_chain(it1)[1]
+        h = len(conds1) == 1 and hasattr_call(conds1[0])
+        if not (h and is_name(h[0], v1)):
+            raise Skip('_get_types: first comprehension does not keep exactly the bases with `hasattr(b, <origin attr>)`')
+        f['loopOriginAttr'] = h[1]
+        if not is_name(it2, subsv):
+            raise Skip('_get_types: second comprehension does not select from the first list')
+        cls_name = origin_class_test(conds2, [v2, f['loopOriginAttr']])
+        if loop.orelse or not is_name(loop.target):
+            raise Skip('_get_types: loop shape outside the subset')
+        it = loop.iter
+        if isinstance(it, ast.BoolOp) and isinstance(it.op, ast.Or) and len(it.values) == 2 and is_name(it.values[0], mixv) \
+                and is_name(it.values[1], subsv):
+            f['loopPrefersOriginsDerivedFrom'], f['loopFallsBackToAll'] = cls_name, True
+        elif is_name(it, mixv):
+            f['loopPrefersOriginsDerivedFrom'] = cls_name
+        elif is_name(it, subsv):
+            pass
+        else:
+            raise Skip('_get_types: loop iterates something else than `mixin_bases or subscripted_bases`')
+        bv = loop.target.id
+        lb = body_of(loop)
+        if len(lb) not in (2, 3):
+            raise Skip('_get_types: loop body is not ([origin-without-original-bases test,] lookup, found-test)')
+        l2, l3 = lb[-2], lb[-1]
+        if len(lb) == 3:
+            l0 = lb[0]
+            h = isinstance(l0, ast.If) and not_hasattr(l0.test)
+            if not (h and attr_chain(h[0]) == [bv, f['loopOriginAttr']] and h[1] == f['loopIterAttr'] and len(l0.body) == 1
+                    and isinstance(l0.body[0], ast.Continue) and not l0.orelse):
+                raise Skip('_get_types: first statement of the loop is not `if not hasattr(base.<origin>, <orig bases attr>): continue`')
+            f['loopSkipsOriginsWithoutOrigBases'] = True
+    else:
+        raise Skip('_get_types: then-branch is neither a single for loop nor (comprehension, comprehension, for loop)')
     if not (isinstance(l2, ast.Assign) and is_name(l2.targets[0], gbv) and isinstance(l2.value, ast.Call)
             and is_name(l2.value.func, 'get_generic_base') and len(l2.value.args) == 1
             and attr_chain(l2.value.args[0]) == [bv, f['loopOriginAttr']]):
@@ -483,9 +545,15 @@ def genericBaseArgsAttr : String := {lean_str(g['genericBaseArgsAttr'])}
 def keysFromGenericBase : Bool := {lean_bool(g['keysFromGenericBase'])}
 /-- … and the value is the element that comes from the actual type arguments -/
 def valsFromActualTypes : Bool := {lean_bool(g['valsFromActualTypes'])}
-/-- `if not ([isinstance(base.<origin>, type) and] issubclass(base.<origin>, <Class>)): continue` in the loop: a subscripted base whose
-    origin is not derived from this library class is passed over (`none`: there is no such test) -/
-def loopOriginMustDeriveFrom : Option String := {('some ' + lean_str(g['loopOriginMustDeriveFrom'])) if g['loopOriginMustDeriveFrom'] else 'none'}
+/-- the loop looks at the subscripted bases whose origin is derived from this library class only — written as a `continue` test
+    `if not ([isinstance(base.<origin>, type) and] issubclass(base.<origin>, <Class>))` or as a list `mixin_bases` built beforehand
+    (`none`: every subscripted base is looked at) -/
+def loopPrefersOriginsDerivedFrom : Option String := {('some ' + lean_str(g['loopPrefersOriginsDerivedFrom'])) if g['loopPrefersOriginsDerivedFrom'] else 'none'}
+/-- `for base in mixin_bases or subscripted_bases`: when no subscripted base has such an origin, all subscripted bases are looked at -/
+def loopFallsBackToAll : Bool := {lean_bool(g['loopFallsBackToAll'])}
+/-- `if not hasattr(base.<origin>, '<orig bases attr>'): continue` at the top of the loop: an origin without `__orig_bases__`
+    (`Sequence`, `list`) is passed over instead of ending in AttributeError -/
+def loopSkipsOriginsWithoutOrigBases : Bool := {lean_bool(g['loopSkipsOriginsWithoutOrigBases'])}
 /-- `get_generic_base` keeps only bases with `c.__origin__ == Generic` -/
 def genericFilterChecksOrigin : Bool := {lean_bool(g['genericFilterChecksOrigin'])}
 /-- `return generic_bases[<i>]` -/
